@@ -67,6 +67,20 @@ def generate(seed, tier="quick"):
             f["sites"][a] = {"op": "eq", "place": "direct", "arg": lr.choice([None, "1"]), "prev": None}
             f["sites"][b] = {"op": lr.choice(["eq", "in"]), "place": "direct", "arg": lr.choice([None, "[2]"]), "prev": None}
             lr.choice(f["tests"])["events"].append({"t": "cmp2", "eid": f"pp{n}", "sites": [a, b], "vals": [["str", lr.choice(UNI)], ["int", lr.randint(0, 3)]]})
+    qrng = sub(seed, "parenthesised-entries")
+    if qrng.random() < 0.12:
+        # dict entries / keyword arguments whose value (or key) alone is written in parentheses, next to entries that are inserted or deleted
+        f = prog["files"][0]
+        arg, val = qrng.choice([
+            ('{"a": (1 + 2j), "b": ("x" "y"), "c": 5}', '{"a": 1 + 2j, "c": 5}'),
+            ('{"a": (1 + 2j), "b": (3 + 4j), "c": 5}', '{"a": 1 + 2j}'),
+            ('{"a": (1 + 2j), "c": 5}', '{"a": 1 + 2j, "b": 7, "c": 5}'),
+            ('{(-1): "x", 2: "y"}', '{-1: "x", 3: "z"}'),
+            ('DC(a=(1 + 2j), b=("x" "y"), c=[1])', 'DC(a=1 + 2j, c=[1])'),
+            ('DC(a=(1 + 2j), c=[1])', 'DC(a=1 + 2j, b=3, c=[1])'),
+        ])
+        f["sites"]["pq1"] = {"op": "eq", "place": qrng.choice(["direct", "func"]), "arg": arg, "prev": None}
+        qrng.choice(f["tests"])["events"].append({"t": "cmp", "eid": "epq1", "site": "pq1", "vals": [["raw", val]], "style": qrng.choice(["assert", "rec"])})
     frng = sub(seed, "flags")
     steps = [frng.choice([["create", "fix"], list(CATS), ["fix"], ["create"], ["trim", "update"], ["update"], [c for c in CATS if frng.random() < 0.5]]) for _ in range(frng.choice([1, 1, 2, 3]))]
     fmt = draw_fmt(sub(seed, "fmt"))
@@ -129,7 +143,7 @@ def execute(case, ctx):
                 elif case.get("edge") == "trailing-blank-lines":
                     files[k] = files[k] + "\n\n"
                 elif case.get("edge") == "leading-blank-lines":
-                    files[k] = "\n\n" + files[k]
+                    files[k] = mark + "\n\n" + files[k][len(mark):]  # (a byte order mark stays the first character of the file)
         if case.get("edge"):
             ctx.count("probe_file_unclean_only_at_its_edges")
     if driver == "plugin":
@@ -146,7 +160,13 @@ def execute(case, ctx):
         else:
             new, res = sim.run_session(ctx, driver, cur, {"flags": flags, "fmt": fmt})
         if not sim.session_completed(driver, res):
-            out["discards"]["session-did-not-complete(C18)"] = 1
+            cv = sim.completion_violation(driver, res, f"step {si} flags={flags} fmt={fmt_tag(fmt)}")
+            if cv["sig"].startswith("session-died:SyntaxError@") and cats:
+                # the content the session computed for a file is not valid Python: the library's own parse before writing refused it (and with it
+                # every approved change of the session) - "whatever is approved, a rewritten test file is still valid Python"
+                viol("valid-python", "new-content-does-not-parse:" + cv["sig"].split("@", 1)[1], cv["detail"] + "\n--- first file\n" + sim.to_text(cur).get(prog["files"][0]["name"], "")[:1200])
+            else:
+                out["discards"]["session-did-not-complete(C18)"] = 1
             return out
         ctx.count("clauses_checked")
         for fn in sorted(k for k in cur if k.startswith("test_")):
